@@ -85,6 +85,7 @@ var trTargets = []trTarget{
 	{Pkg: evm + "app/antedl/duallane", Recv: "DLSigVerificationDecorator", Name: "AnteHandle", EraseObj: true},
 	{Pkg: evm + "app/antedl/duallane", Recv: "DLIncrementSequenceDecorator", Name: "AnteHandle", EraseObj: true},
 	{Pkg: evm + "app/antedl/duallane", Recv: "DLDeductFeeDecorator", Name: "AnteHandle", EraseObj: true},
+	{Pkg: evm + "x/evm/keeper", Recv: "Keeper", Name: "IsEmptyAccount"},
 	{Pkg: evm + "indexer", Name: "TxIndexKey"},
 	{Pkg: evm + "indexer", Name: "parseBlockNumberFromKey"},
 	{Pkg: evm + "app/antedl/evmlane", Recv: "ELValidateBasicEoaDecorator", Name: "AnteHandle", EraseObj: true},
